@@ -79,4 +79,286 @@ theorem den_subEntries (e1 e2 : List (Entry K)) (i : Nat) :
     have hab : a.idx = b.idx := by omega
     simp only [denE_cons, ih, s_sub, hab]; split <;> ring
 
+/-! ### matrices -/
+
+/-- dense value of a row table at `(i, j)` (rows beyond the table are empty) -/
+def denM (rows : List (Row K)) (i j : Nat) : K := denE (rows.getD i []) j
+
+/-! ### more `Sorted` / `WF` / `denE` basics -/
+
+omit [Field K] [LinearOrder K] in
+theorem Sorted.nil : Sorted ([] : List (Entry K)) := List.Pairwise.nil
+
+theorem WF.nil (dim : Nat) : WF dim ([] : List (Entry K)) :=
+  ⟨Sorted.nil, fun _ h => by cases h⟩
+
+omit [Field K] [LinearOrder K] in
+theorem Sorted.cons {a : Entry K} {es : List (Entry K)} (h1 : ∀ e ∈ es, a.idx < e.idx)
+    (h2 : Sorted es) : Sorted (a :: es) := List.pairwise_cons.mpr ⟨h1, h2⟩
+
+/-- in a sorted list the dense value at a stored index is the stored value -/
+theorem denE_of_mem {es : List (Entry K)} (h : Sorted es) {e : Entry K} (he : e ∈ es) :
+    denE es e.idx = e.val := by
+  induction es with
+  | nil => cases he
+  | cons a es ih =>
+    rcases List.mem_cons.mp he with rfl | he'
+    · simp [denE_tail_of_le_head h (Nat.le_refl _)]
+    · have hlt := h.head_lt e he'
+      have hne : a.idx ≠ e.idx := by omega
+      simp [hne, ih h.tail he']
+
+/-- a dense value that is not zero is stored -/
+theorem exists_mem_of_denE_ne_zero {es : List (Entry K)} {i : Nat} (h : denE es i ≠ 0) :
+    ∃ e ∈ es, e.idx = i := by
+  by_contra hc
+  apply h
+  apply denE_eq_zero_of_forall_ne
+  intro e he hi
+  exact hc ⟨e, he, hi⟩
+
+/-! ### structure of the merge loops, for any `Scalar` (in particular `Float`) -/
+
+section generic
+variable {α : Type} [Scalar α]
+
+/-- every entry produced by the `AddVec` loop is an input entry or ONE `add` of two input
+    values with equal index -/
+theorem mem_addEntries {e1 e2 : List (Entry α)} {x : Entry α} (hx : x ∈ addEntries e1 e2) :
+    x ∈ e1 ∨ x ∈ e2 ∨ ∃ a ∈ e1, ∃ b ∈ e2, a.idx = b.idx ∧ x = ⟨a.idx, Scalar.add a.val b.val⟩ := by
+  fun_induction addEntries e1 e2 with
+  | case1 e2 => exact Or.inr (Or.inl hx)
+  | case2 e1 _ => exact Or.inl hx
+  | case3 a e1 b e2 h ih =>
+    rcases List.mem_cons.mp hx with rfl | hx
+    · exact Or.inl (by simp)
+    · rcases ih hx with h | h | ⟨a', ha', b', hb', h⟩
+      · exact Or.inl (List.mem_cons_of_mem _ h)
+      · exact Or.inr (Or.inl h)
+      · exact Or.inr (Or.inr ⟨a', List.mem_cons_of_mem _ ha', b', hb', h⟩)
+  | case4 a e1 b e2 h1 h2 ih =>
+    rcases List.mem_cons.mp hx with rfl | hx
+    · exact Or.inr (Or.inl (by simp))
+    · rcases ih hx with h | h | ⟨a', ha', b', hb', h⟩
+      · exact Or.inl h
+      · exact Or.inr (Or.inl (List.mem_cons_of_mem _ h))
+      · exact Or.inr (Or.inr ⟨a', ha', b', List.mem_cons_of_mem _ hb', h⟩)
+  | case5 a e1 b e2 h1 h2 ih =>
+    rcases List.mem_cons.mp hx with rfl | hx
+    · exact Or.inr (Or.inr ⟨a, by simp, b, by simp, by omega, rfl⟩)
+    · rcases ih hx with h | h | ⟨a', ha', b', hb', h⟩
+      · exact Or.inl (List.mem_cons_of_mem _ h)
+      · exact Or.inr (Or.inl (List.mem_cons_of_mem _ h))
+      · exact Or.inr (Or.inr ⟨a', List.mem_cons_of_mem _ ha', b', List.mem_cons_of_mem _ hb', h⟩)
+
+/-- every entry produced by the `SubVec` loop is an entry of the minuend, ONE `neg` of an
+    entry of the subtrahend, or ONE `sub` of two input values with equal index -/
+theorem mem_subEntries {e1 e2 : List (Entry α)} {x : Entry α} (hx : x ∈ subEntries e1 e2) :
+    x ∈ e1 ∨ (∃ b ∈ e2, x = ⟨b.idx, Scalar.neg b.val⟩) ∨
+      ∃ a ∈ e1, ∃ b ∈ e2, a.idx = b.idx ∧ x = ⟨a.idx, Scalar.sub a.val b.val⟩ := by
+  fun_induction subEntries e1 e2 with
+  | case1 e2 =>
+    simp only [negEntries, List.mem_map] at hx
+    obtain ⟨b, hb, rfl⟩ := hx
+    exact Or.inr (Or.inl ⟨b, hb, rfl⟩)
+  | case2 e1 _ => exact Or.inl hx
+  | case3 a e1 b e2 h ih =>
+    rcases List.mem_cons.mp hx with rfl | hx
+    · exact Or.inl (by simp)
+    · rcases ih hx with h | ⟨b', hb', h⟩ | ⟨a', ha', b', hb', h⟩
+      · exact Or.inl (List.mem_cons_of_mem _ h)
+      · exact Or.inr (Or.inl ⟨b', hb', h⟩)
+      · exact Or.inr (Or.inr ⟨a', List.mem_cons_of_mem _ ha', b', hb', h⟩)
+  | case4 a e1 b e2 h1 h2 ih =>
+    rcases List.mem_cons.mp hx with rfl | hx
+    · exact Or.inr (Or.inl ⟨b, by simp, rfl⟩)
+    · rcases ih hx with h | ⟨b', hb', h⟩ | ⟨a', ha', b', hb', h⟩
+      · exact Or.inl h
+      · exact Or.inr (Or.inl ⟨b', List.mem_cons_of_mem _ hb', h⟩)
+      · exact Or.inr (Or.inr ⟨a', ha', b', List.mem_cons_of_mem _ hb', h⟩)
+  | case5 a e1 b e2 h1 h2 ih =>
+    rcases List.mem_cons.mp hx with rfl | hx
+    · exact Or.inr (Or.inr ⟨a, by simp, b, by simp, by omega, rfl⟩)
+    · rcases ih hx with h | ⟨b', hb', h⟩ | ⟨a', ha', b', hb', h⟩
+      · exact Or.inl (List.mem_cons_of_mem _ h)
+      · exact Or.inr (Or.inl ⟨b', List.mem_cons_of_mem _ hb', h⟩)
+      · exact Or.inr (Or.inr ⟨a', List.mem_cons_of_mem _ ha', b', List.mem_cons_of_mem _ hb', h⟩)
+
+/-- indices of the `AddVec` result come from the inputs -/
+theorem idx_mem_addEntries {e1 e2 : List (Entry α)} {x : Entry α} (hx : x ∈ addEntries e1 e2) :
+    ∃ y, (y ∈ e1 ∨ y ∈ e2) ∧ y.idx = x.idx := by
+  rcases mem_addEntries hx with h | h | ⟨a, ha, b, hb, hab, rfl⟩
+  · exact ⟨x, Or.inl h, rfl⟩
+  · exact ⟨x, Or.inr h, rfl⟩
+  · exact ⟨a, Or.inl ha, rfl⟩
+
+/-- indices of the `SubVec` result come from the inputs -/
+theorem idx_mem_subEntries {e1 e2 : List (Entry α)} {x : Entry α} (hx : x ∈ subEntries e1 e2) :
+    ∃ y, (y ∈ e1 ∨ y ∈ e2) ∧ y.idx = x.idx := by
+  rcases mem_subEntries hx with h | ⟨b, hb, rfl⟩ | ⟨a, ha, b, hb, hab, rfl⟩
+  · exact ⟨x, Or.inl h, rfl⟩
+  · exact ⟨b, Or.inr hb, rfl⟩
+  · exact ⟨a, Or.inl ha, rfl⟩
+
+end generic
+
+/-! ### well-formedness of AddVec / SubVec results -/
+
+theorem sorted_negEntries {es : List (Entry K)} (h : Sorted es) : Sorted (negEntries es) := by
+  unfold Sorted negEntries
+  exact List.pairwise_map.mpr h
+
+theorem sorted_addEntries {e1 e2 : List (Entry K)} (h1 : Sorted e1) (h2 : Sorted e2) :
+    Sorted (addEntries e1 e2) := by
+  fun_induction addEntries e1 e2 with
+  | case1 e2 => exact h2
+  | case2 e1 _ => exact h1
+  | case3 a e1 b e2 h ih =>
+    refine Sorted.cons ?_ (ih h1.tail h2)
+    intro x hx
+    obtain ⟨y, hy | hy, hyx⟩ := idx_mem_addEntries hx
+    · have := h1.head_lt y hy; omega
+    · rcases List.mem_cons.mp hy with rfl | hy
+      · omega
+      · have := h2.head_lt y hy; omega
+  | case4 a e1 b e2 hab hba ih =>
+    refine Sorted.cons ?_ (ih h1 h2.tail)
+    intro x hx
+    obtain ⟨y, hy | hy, hyx⟩ := idx_mem_addEntries hx
+    · rcases List.mem_cons.mp hy with rfl | hy
+      · omega
+      · have := h1.head_lt y hy; omega
+    · have := h2.head_lt y hy; omega
+  | case5 a e1 b e2 hab hba ih =>
+    refine Sorted.cons ?_ (ih h1.tail h2.tail)
+    intro x hx
+    obtain ⟨y, hy | hy, hyx⟩ := idx_mem_addEntries hx
+    · have := h1.head_lt y hy; simp only; omega
+    · have := h2.head_lt y hy; simp only; omega
+
+theorem sorted_subEntries {e1 e2 : List (Entry K)} (h1 : Sorted e1) (h2 : Sorted e2) :
+    Sorted (subEntries e1 e2) := by
+  fun_induction subEntries e1 e2 with
+  | case1 e2 => exact sorted_negEntries h2
+  | case2 e1 _ => exact h1
+  | case3 a e1 b e2 h ih =>
+    refine Sorted.cons ?_ (ih h1.tail h2)
+    intro x hx
+    obtain ⟨y, hy | hy, hyx⟩ := idx_mem_subEntries hx
+    · have := h1.head_lt y hy; omega
+    · rcases List.mem_cons.mp hy with rfl | hy
+      · omega
+      · have := h2.head_lt y hy; omega
+  | case4 a e1 b e2 hab hba ih =>
+    refine Sorted.cons ?_ (ih h1 h2.tail)
+    intro x hx
+    obtain ⟨y, hy | hy, hyx⟩ := idx_mem_subEntries hx
+    · rcases List.mem_cons.mp hy with rfl | hy
+      · simp only; omega
+      · have := h1.head_lt y hy; simp only; omega
+    · have := h2.head_lt y hy; simp only; omega
+  | case5 a e1 b e2 hab hba ih =>
+    refine Sorted.cons ?_ (ih h1.tail h2.tail)
+    intro x hx
+    obtain ⟨y, hy | hy, hyx⟩ := idx_mem_subEntries hx
+    · have := h1.head_lt y hy; simp only; omega
+    · have := h2.head_lt y hy; simp only; omega
+
+theorem wf_addEntries {dim : Nat} {e1 e2 : List (Entry K)} (h1 : WF dim e1) (h2 : WF dim e2) :
+    WF dim (addEntries e1 e2) := by
+  refine ⟨sorted_addEntries h1.1 h2.1, fun x hx => ?_⟩
+  obtain ⟨y, hy | hy, hyx⟩ := idx_mem_addEntries hx
+  · have := h1.2 y hy; omega
+  · have := h2.2 y hy; omega
+
+theorem wf_subEntries {dim : Nat} {e1 e2 : List (Entry K)} (h1 : WF dim e1) (h2 : WF dim e2) :
+    WF dim (subEntries e1 e2) := by
+  refine ⟨sorted_subEntries h1.1 h2.1, fun x hx => ?_⟩
+  obtain ⟨y, hy | hy, hyx⟩ := idx_mem_subEntries hx
+  · have := h1.2 y hy; omega
+  · have := h2.2 y hy; omega
+
+/-! ### ScaleVec -/
+
+/-- the general (`a ≠ 1`) branch of `scaleInPlace` -/
+theorem den_scale_filterMap (a : K) (es : List (Entry K)) (i : Nat) :
+    denE (es.filterMap fun e =>
+      let x := Scalar.mul e.val a
+      if Scalar.isZero x then none else some (⟨e.idx, x⟩ : Entry K)) i = denE es i * a := by
+  induction es with
+  | nil => simp
+  | cons e es ih =>
+    simp only [s_mul, s_isZero, decide_eq_true_eq] at ih ⊢
+    rw [List.filterMap_cons]
+    by_cases hz : e.val * a = 0
+    · simp only [hz, if_true, ih, denE_cons]
+      split
+      · rw [add_mul, hz, zero_add]
+      · rfl
+    · simp only [hz, if_false, ih, denE_cons]
+      split
+      · rw [add_mul]
+      · rfl
+
+theorem den_scaleEntries (a : K) (es : List (Entry K)) (i : Nat) :
+    denE (scaleEntries a es) i = a * denE es i := by
+  unfold scaleEntries
+  by_cases h1 : a = 1
+  · simp [h1]
+  · simp only [s_eq, s_one, h1, decide_false, Bool.false_eq_true, if_false]
+    rw [den_scale_filterMap, mul_comm]
+
+/-- membership in the result of `scaleEntries` for `a ≠ 1` -/
+theorem mem_scaleEntries {a : K} (h1 : a ≠ 1) {es : List (Entry K)} {x : Entry K} :
+    x ∈ scaleEntries a es ↔ ∃ e ∈ es, e.val * a ≠ 0 ∧ x = ⟨e.idx, e.val * a⟩ := by
+  unfold scaleEntries
+  simp only [s_eq, s_one, h1, decide_false, Bool.false_eq_true, if_false, List.mem_filterMap,
+    s_mul, s_isZero, decide_eq_true_eq]
+  constructor
+  · rintro ⟨e, he, h⟩
+    by_cases hz : e.val * a = 0
+    · simp [hz] at h
+    · simp only [hz, if_false, Option.some.injEq] at h
+      exact ⟨e, he, hz, h.symm⟩
+  · rintro ⟨e, he, hz, rfl⟩
+    exact ⟨e, he, by simp [hz]⟩
+
+theorem scaleEntries_one (es : List (Entry K)) : scaleEntries (1 : K) es = es := by
+  simp [scaleEntries]
+
+theorem scaleEntries_sublist_idx (a : K) (es : List (Entry K)) :
+    ((scaleEntries a es).map (·.idx)).Sublist (es.map (·.idx)) := by
+  unfold scaleEntries
+  split
+  · exact List.Sublist.refl _
+  · induction es with
+    | nil => simp
+    | cons e es ih =>
+      rw [List.filterMap_cons]
+      split
+      · exact List.Sublist.cons _ ih
+      · rename_i b hb
+        simp only at hb
+        split at hb
+        · cases hb
+        · cases hb
+          simpa using ih
+
+omit [Field K] [LinearOrder K] in
+theorem sorted_iff_map_idx {es : List (Entry K)} :
+    Sorted es ↔ (es.map (·.idx)).Pairwise (· < ·) := by
+  unfold Sorted; rw [List.pairwise_map]
+
+theorem wf_scaleEntries {dim : Nat} (a : K) {es : List (Entry K)} (h : WF dim es) :
+    WF dim (scaleEntries a es) := by
+  constructor
+  · rw [sorted_iff_map_idx]
+    exact List.Pairwise.sublist (scaleEntries_sublist_idx a es) (sorted_iff_map_idx.mp h.1)
+  · intro x hx
+    have : x.idx ∈ (scaleEntries a es).map (·.idx) := List.mem_map.mpr ⟨x, hx, rfl⟩
+    have := (scaleEntries_sublist_idx a es).subset this
+    obtain ⟨y, hy, hyx⟩ := List.mem_map.mp this
+    have := h.2 y hy
+    omega
+
 end EtVerif
